@@ -140,7 +140,7 @@ class CrossProcessStack(CrossProcess):
     reps = ("stack",)
 
     def budget(self, tier):
-        return (3, 3) if tier == "quick" else (15, 8)
+        return (4, 6) if tier == "quick" else (15, 8)
 
 
 FACETS = [CrossProcess(), CrossProcessStack()]
